@@ -1207,7 +1207,8 @@ func (s *sharedEntryAttributes) validateMandatoryWithKeys(ctx context.Context, l
 		// if not the path exists in the tree and is not to be deleted, then lookup in the paths index of the store
 		// and see if such path exists, if not raise the error
 		if !(existsInTree && v.remainsToExist()) {
-			exists, err := s.treeContext.cacheClient.IntendedPathExists(ctx, append(s.Path(), attribute))
+			// the content of the transactions intents is in the tree, only consult the index for the other intents
+			exists, err := s.treeContext.cacheClient.IntendedPathExists(ctx, append(s.Path(), attribute), CacheUpdateFilterExcludeOwners(s.treeContext.GetInvolvedOwners()))
 			owner := "unknown"
 			if s.leafVariants.Length() > 0 {
 				s.leafVariants.GetHighestPrecedence(false, true).Owner()
